@@ -775,6 +775,9 @@ pub enum MsgFault {
     /// the concatenated payload is unchanged (still a decodable packet), but
     /// the non-final chunks no longer have one size (needs >= 3 chunks)
     Reflow(u16, u8),
+    /// a double fault that keeps the chunk count: chunk `lost` removed, chunk
+    /// `repeated` delivered twice (ids realign after the disturbed stretch)
+    LoseAndRepeat { lost: u16, repeated: u16 },
 }
 pub fn msg_fault() -> impl Strategy<Value = MsgFault> {
     prop_oneof![
@@ -786,6 +789,7 @@ pub fn msg_fault() -> impl Strategy<Value = MsgFault> {
         (any::<u16>(), any::<bool>()).prop_map(|(i, up)| MsgFault::Resize(i, up)),
         (any::<u16>(), 1u8..=3).prop_map(|(i, d)| MsgFault::Renumber(i, d)),
         (any::<u16>(), 1u8..=16).prop_map(|(i, k)| MsgFault::Reflow(i, k)),
+        (any::<u16>(), any::<u16>()).prop_map(|(lost, repeated)| MsgFault::LoseAndRepeat { lost, repeated }),
     ]
 }
 
@@ -875,6 +879,16 @@ impl MsgCase {
                 let k = pick(i, n);
                 c[k].chunk_id = c[k].chunk_id.wrapping_add(d as u16);
                 true
+            }
+            MsgFault::LoseAndRepeat { lost, repeated } if n >= 2 => {
+                let (l, r) = (pick(lost, n), pick(repeated, n));
+                if l == r {
+                    false
+                } else {
+                    let copy = c[r].clone();
+                    c[l] = copy;
+                    true
+                }
             }
             MsgFault::Reflow(i, k) if n >= 3 => {
                 let at = pick(i, n - 1);
